@@ -70,13 +70,14 @@ pub fn e1_jobs(prop: &str, tier: Tier) -> (Vec<E1Job>, usize) {
         "C01" | "C05" => if q { vec![pa(3), pbs(4), pc(6), pd(4), pe(1, true, 2), pa15(4)] } else { vec![pa(4), pb(4), pc(8), pd(6), pe(2, true, 2), pe(1, false, 3)] },
         "C02" => if q { vec![pb(3), pbs(4), pd(5)] } else { vec![pb(4), pbs(5), pd(6)] },
         "C03" => if q { vec![pd(5), pf(4), pe(1, true, 2)] } else { vec![pd(7), pf(5), pe(2, true, 2)] },
-        "C04" => if q { vec![pa1(3), pbs(3), pc(6), pd(4), pe(1, true, 2), pf(4)] } else { vec![pa(3), pbs(4), pc(8), pd(5), pe(2, true, 2), pf(5)] },
+        "C04" => if q { vec![pa1(3), pbs(3), pc(6), pd(4), pe(1, true, 2), pf(4), E1Job { profile: Profile::S, depth: 2 }] } else { vec![pa(3), pbs(4), pc(8), pd(5), pe(2, true, 2), pf(5)] },
         "C07" => if q { vec![pe(1, true, 2), pe(2, true, 1), pe(1, false, 3)] } else { vec![pe(2, true, 2), pe(1, true, 3)] },
         "C10" => if q { vec![pa(3), pb(3), pbs(4), pc(6), pd(5), pa15(4)] } else { vec![pa(3), pa1(4), pb(4), pbs(5), pc(8), pd(7)] },
         "C12" => if q { vec![pf(4)] } else { vec![pf(6)] },
-        "C13" => if q { vec![pf(4), pe(1, true, 2)] } else { vec![pf(5), pe(2, true, 2)] },
+        "C13" => if q { vec![pf(4), pe(1, true, 2), E1Job { profile: Profile::S, depth: 2 }, E1Job { profile: Profile::S, depth: 3 }] } else { vec![pf(5), pe(2, true, 2), E1Job { profile: Profile::S, depth: 3 }] },
+        "C04x" => vec![],
         "C18" => if q { vec![pill(4), pc(7), pbs(3), pn(3)] } else { vec![pill(5), pc(9), pb(4), pn(4), pe(1, true, 2)] },
-        "C19" => if q { vec![pa1(3), pbs(3), pd(4), pe(1, false, 2)] } else { vec![pa(3), pb(3), pd(5), pe(1, true, 2)] },
+        "C19" => if q { vec![pa15(3), pb(3), pd(5), pe(1, true, 2), pc(5)] } else { vec![pa(3), pb(4), pd(6), pe(1, true, 2), pc(7), pf(4)] },
         "C20" => if q { vec![pn(4), pbs(3), pc(6), pd(4), pe(1, false, 2)] } else { vec![pn(5), pb(4), pc(8), pd(6), pe(1, true, 2)] },
         _ => vec![],
     };
@@ -334,6 +335,8 @@ pub struct E2Job {
     pub label: String,
     pub scenarios: Vec<Scenario>,
     pub bounds: Vec<u32>,
+    /// delay bounding instead of preemption bounding
+    pub delay: bool,
 }
 
 fn scen(plans: &[Vec<Op>], modes: &[Mode], dispatches: &[u8]) -> Vec<Scenario> {
@@ -362,27 +365,56 @@ pub fn e2_jobs(prop: &str, tier: Tier) -> Vec<E2Job> {
     let mut jobs = Vec::new();
     match prop {
         "C01" | "C04" | "C05" => {
-            jobs.push(E2Job { label: "core plans (deps off: access only), every mode".into(), scenarios: scen(&core(vec![3], if q { 3 } else { 3 }), &all_modes, &[1]), bounds: b(if q { 2 } else { 3 }) });
-            jobs.push(E2Job { label: "core plans with running-time hints {1,5} (groups of 2+), 2 dispatches".into(), scenarios: scen(&core(vec![1, 5], 3), &[Mode::Dispatch], &[2]), bounds: b(if q { 1 } else { 2 }) });
-            jobs.push(E2Job { label: "small batch plans".into(), scenarios: scen(&eb(2), &[Mode::Dispatch], &[1]), bounds: b(if q { 1 } else { 2 }) });
+            jobs.push(E2Job { label: "core plans (deps off: access only), every mode".into(), scenarios: scen(&core(vec![3], if q { 3 } else { 3 }), &all_modes, &[1]), bounds: b(if q { 2 } else { 3 }), delay: false });
+            jobs.push(E2Job { label: "core plans with running-time hints {1,5} (groups of 2+), 2 dispatches".into(), scenarios: scen(&core(vec![1, 5], 3), &[Mode::Dispatch], &[2]), bounds: b(if q { 1 } else { 2 }), delay: false });
+            jobs.push(E2Job { label: "small batch plans".into(), scenarios: scen(&eb(2), &[Mode::Dispatch], &[1]), bounds: b(if q { 1 } else { 2 }), delay: false });
             if !q {
-                jobs.push(E2Job { label: "core plans depth 4, dispatch".into(), scenarios: scen(&core(vec![3], 4), &[Mode::Dispatch], &[1]), bounds: b(2) });
-                jobs.push(E2Job { label: "barrier plans".into(), scenarios: scen(&barr(4), &[Mode::Dispatch, Mode::Async], &[1, 2]), bounds: b(2) });
+                jobs.push(E2Job { label: "core plans depth 4, dispatch".into(), scenarios: scen(&core(vec![3], 4), &[Mode::Dispatch], &[1]), bounds: b(2), delay: false });
+                jobs.push(E2Job { label: "barrier plans".into(), scenarios: scen(&barr(4), &[Mode::Dispatch, Mode::Async], &[1, 2]), bounds: b(2), delay: false });
             }
         }
+        _ => {}
+    }
+    if prop == "C04" {
+        // pool-size sweep: stages wider than / equal to / narrower than the pool
+        let mut scs = Vec::new();
+        for w in [2usize, 3, 5, 7] {
+            for n in [1usize, 2, 3, 4] {
+                for (mode, d) in [(Mode::Dispatch, 2u8), (Mode::Async, 1)] {
+                    for user in [true, false] {
+                        let mut s = Scenario::plain(wide_stage(w), mode, d);
+                        if user {
+                            s.user_pool = Some(n);
+                        } else {
+                            s.default_threads = Some(n);
+                        }
+                        scs.push(s);
+                    }
+                }
+            }
+            let inner = wide_stage(w);
+            for n in [2usize, 3] {
+                let mut s = Scenario::plain(vec![Op::Batch(crate::spec::BatchSpec { name: "b".into(), deps: vec![], ctrl: crate::spec::CtrlData::Unit, times: 2, multi: false, fetch_data: false, inner: inner.clone() })], Mode::Dispatch, 1);
+                s.user_pool = Some(n);
+                scs.push(s);
+            }
+        }
+        jobs.push(E2Job { label: "pool-size sweep: stages of 2..7 independent systems on user-supplied / default pools of 1..4 threads, dispatch / async / batch-inner".into(), scenarios: scs, bounds: b(if q { 1 } else { 2 }), delay: true });
+    }
+    match prop {
         "C02" => {
-            jobs.push(E2Job { label: "dependency plans (resource-less or one writer)".into(), scenarios: scen(&nores(if q { 3 } else { 4 }), &[Mode::Dispatch, Mode::Par, Mode::Async], &[1]), bounds: b(if q { 2 } else { 3 }) });
-            jobs.push(E2Job { label: "dependency plans, 2 dispatches".into(), scenarios: scen(&nores(3), &[Mode::Dispatch, Mode::Async], &[2]), bounds: b(if q { 1 } else { 2 }) });
+            jobs.push(E2Job { label: "dependency plans (resource-less or one writer)".into(), scenarios: scen(&nores(if q { 3 } else { 4 }), &[Mode::Dispatch, Mode::Par, Mode::Async], &[1]), bounds: b(if q { 2 } else { 3 }), delay: false });
+            jobs.push(E2Job { label: "dependency plans, 2 dispatches".into(), scenarios: scen(&nores(3), &[Mode::Dispatch, Mode::Async], &[2]), bounds: b(if q { 1 } else { 2 }), delay: false });
         }
         "C03" => {
-            jobs.push(E2Job { label: "barrier plans (resource-less or one writer)".into(), scenarios: scen(&barr(if q { 4 } else { 5 }), &[Mode::Dispatch, Mode::Par, Mode::Async], &[1]), bounds: b(if q { 2 } else { 3 }) });
+            jobs.push(E2Job { label: "barrier plans (resource-less or one writer)".into(), scenarios: scen(&barr(if q { 4 } else { 5 }), &[Mode::Dispatch, Mode::Par, Mode::Async], &[1]), bounds: b(if q { 2 } else { 3 }), delay: false });
         }
         "C07" => {
-            jobs.push(E2Job { label: "small batch plans, 2 outer ops".into(), scenarios: scen(&eb(2), &[Mode::Dispatch, Mode::Par], &[1]), bounds: b(if q { 1 } else { 2 }) });
-            jobs.push(E2Job { label: "single batch, 2 dispatches".into(), scenarios: scen(&eb(1), &[Mode::Dispatch, Mode::Async], &[2]), bounds: b(2) });
+            jobs.push(E2Job { label: "small batch plans, 2 outer ops".into(), scenarios: scen(&eb(2), &[Mode::Dispatch, Mode::Par], &[1]), bounds: b(if q { 1 } else { 2 }), delay: false });
+            jobs.push(E2Job { label: "single batch, 2 dispatches".into(), scenarios: scen(&eb(1), &[Mode::Dispatch, Mode::Async], &[2]), bounds: b(2), delay: false });
             if !q {
-                jobs.push(E2Job { label: "small batch plans, 3 outer ops".into(), scenarios: scen(&eb(3), &[Mode::Dispatch], &[1]), bounds: b(1) });
-                jobs.push(E2Job { label: "batch plans, inner plans of <= 1 op".into(), scenarios: scen(&batch(1, true, 2), &[Mode::Dispatch], &[1]), bounds: b(1) });
+                jobs.push(E2Job { label: "small batch plans, 3 outer ops".into(), scenarios: scen(&eb(3), &[Mode::Dispatch], &[1]), bounds: b(1), delay: false });
+                jobs.push(E2Job { label: "batch plans, inner plans of <= 1 op".into(), scenarios: scen(&batch(1, true, 2), &[Mode::Dispatch], &[1]), bounds: b(1), delay: false });
             }
         }
         "C14" => {
@@ -421,18 +453,18 @@ pub fn e2_jobs(prop: &str, tier: Tier) -> Vec<E2Job> {
             };
             let dep_acc = acc(&[(&[], &[]), (&[], &[0]), (&[0], &[])]);
             let depplans = |d| distinct_plans(&Profile::B { access: dep_acc.clone(), times: vec![3], unnamed: false, dup: false, pairs: false }, d, 1);
-            jobs.push(E2Job { label: "dependency/access plans x every single panicking system x {fetch, run}, then a clean dispatch".into(), scenarios: panic_scen(&depplans(if q { 2 } else { 3 }), &[Mode::Dispatch, Mode::Seq], false), bounds: b(if q { 2 } else { 3 }) });
-            jobs.push(E2Job { label: "3-op plans, single panicking system".into(), scenarios: panic_scen(&depplans(3).into_iter().filter(|p| p.len() == 3).collect::<Vec<_>>(), &[Mode::Dispatch], !q), bounds: b(if q { 1 } else { 2 }) });
-            jobs.push(E2Job { label: "thread-local and batch plans, single panicking system (incl. inside batches, thread-local)".into(), scenarios: panic_scen(&[tl(2), eb(1)].concat(), &[Mode::Dispatch, Mode::Seq], !q), bounds: b(if q { 1 } else { 2 }) });
+            jobs.push(E2Job { label: "dependency/access plans x every single panicking system x {fetch, run}, then a clean dispatch".into(), scenarios: panic_scen(&depplans(if q { 2 } else { 3 }), &[Mode::Dispatch, Mode::Seq], false), bounds: b(if q { 2 } else { 3 }), delay: false });
+            jobs.push(E2Job { label: "3-op plans, single panicking system".into(), scenarios: panic_scen(&depplans(3).into_iter().filter(|p| p.len() == 3).collect::<Vec<_>>(), &[Mode::Dispatch], !q), bounds: b(if q { 1 } else { 2 }), delay: false });
+            jobs.push(E2Job { label: "thread-local and batch plans, single panicking system (incl. inside batches, thread-local)".into(), scenarios: panic_scen(&[tl(2), eb(1)].concat(), &[Mode::Dispatch, Mode::Seq], !q), bounds: b(if q { 1 } else { 2 }), delay: false });
             if !q {
-                jobs.push(E2Job { label: "small batch plans with an outer system".into(), scenarios: panic_scen(&eb(2), &[Mode::Dispatch], false), bounds: b(1) });
+                jobs.push(E2Job { label: "small batch plans with an outer system".into(), scenarios: panic_scen(&eb(2), &[Mode::Dispatch], false), bounds: b(1), delay: false });
             }
         }
         "C12" => {
-            jobs.push(E2Job { label: "thread-local plans, <= 2 ops".into(), scenarios: scen(&tl(2), &[Mode::Dispatch, Mode::Par, Mode::Seq, Mode::Async], &[1, 2]), bounds: b(if q { 2 } else { 3 }) });
-            jobs.push(E2Job { label: "thread-local plans, 3 ops".into(), scenarios: scen(&tl(3).into_iter().filter(|p| p.len() == 3).collect::<Vec<_>>(), &[Mode::Dispatch, Mode::Async], &[1]), bounds: b(if q { 1 } else { 2 }) });
+            jobs.push(E2Job { label: "thread-local plans, <= 2 ops".into(), scenarios: scen(&tl(2), &[Mode::Dispatch, Mode::Par, Mode::Seq, Mode::Async], &[1, 2]), bounds: b(if q { 2 } else { 3 }), delay: false });
+            jobs.push(E2Job { label: "thread-local plans, 3 ops".into(), scenarios: scen(&tl(3).into_iter().filter(|p| p.len() == 3).collect::<Vec<_>>(), &[Mode::Dispatch, Mode::Async], &[1]), bounds: b(if q { 1 } else { 2 }), delay: false });
             if !q {
-                jobs.push(E2Job { label: "thread-local plans, 4 ops".into(), scenarios: scen(&tl(4).into_iter().filter(|p| p.len() == 4).collect::<Vec<_>>(), &[Mode::Dispatch], &[1]), bounds: b(1) });
+                jobs.push(E2Job { label: "thread-local plans, 4 ops".into(), scenarios: scen(&tl(4).into_iter().filter(|p| p.len() == 4).collect::<Vec<_>>(), &[Mode::Dispatch], &[1]), bounds: b(1), delay: false });
             }
         }
         _ => {}
@@ -452,7 +484,7 @@ pub fn run_e2(prop: &str, tier: Tier, budget: Duration, frag: &mut Frag) {
         let remaining = budget.saturating_sub(start.elapsed());
         let share = remaining / (njobs - k) as u32;
         let t0 = Instant::now();
-        let opts = ExploreOpts { bounds: job.bounds.clone(), all_points: false, deadline: t0 + share, max_execs: u64::MAX, keep_traces: 4, deadlock_prop: None, delay_mode: false };
+        let opts = ExploreOpts { bounds: job.bounds.clone(), all_points: false, deadline: t0 + share, max_execs: u64::MAX, keep_traces: 4, deadlock_prop: None, delay_mode: job.delay };
         let r = run_scenarios(&job.scenarios, mon, &opts);
         let wall = t0.elapsed().as_secs_f64();
         frag.parts.push(json!({
@@ -461,6 +493,7 @@ pub fn run_e2(prop: &str, tier: Tier, budget: Duration, frag: &mut Frag) {
             "n_scenarios": job.scenarios.len(),
             "scenarios_completed": r.completed,
             "preemption_bounds": job.bounds,
+            "bound_kind": if job.delay { "delay (all deviations)" } else { "preemptions" },
             "min_bound_completed": r.min_bound,
             "schedules": r.executions,
             "states": r.nodes,
